@@ -301,7 +301,7 @@ var builtinScalars = map[string]bool{"String": true, "Int": true, "Float": true,
 
 // coreDirArgs are the defaults of the directives every root has.
 func coreDirDefs() dirDefs {
-	return dirDefs{"deprecated": {{N: "reason", HasDef: true, Def: gq.Str("No longer supported")}}}
+	return dirDefs{"deprecated": {{N: "reason", HasDef: true, Def: gq.Str("\"No longer supported\"")}}}
 }
 
 // ReadBack projects a real root onto the canonical form of SchemaCore!Canon.
